@@ -45,8 +45,7 @@ pub mod __verif {
     pub use crate::utf8::Utf8Accum;
     pub mod utils {
         pub use crate::utils::{
-            char_byte_index, char_count, char_pop_front, common_prefix_len, encode_utf8,
-            trim_start,
+            char_byte_index, char_count, char_pop_front, common_prefix_len, encode_utf8, trim_start,
         };
     }
 }
